@@ -4,6 +4,20 @@ harness, or unbounded Verus unit) or "bounded" (bound stated in `bound`; never c
 
 OBLIGATIONS = []
 
+# "Arm twins": match arms of the big dispatch functions, sliced mechanically (same slicer as the Verus units, no
+# rewrite rules except local macro expansion R5 and free variables -> parameters R7) and compiled by rustc as
+# methods under cfg(kani) in the per-run overlay, so that Kani can check a bounded twin of an arm's contract on
+# the REAL arm text whatever constructs it uses.
+TWINS = {
+    "vm": [
+        dict(name="verif_arm_call", file="vm.rs", fn="run", impl="VM", arm="OpCode::Call", sig="(&mut self) -> Result<(), Error>", tail="Ok(())"),
+        dict(name="verif_arm_return_value", file="vm.rs", fn="run", impl="VM", arm="OpCode::ReturnValue",
+             sig="(&mut self, constants: &Vec<Object>, gc: &mut GC, final_result: Object) -> Result<(), Error>", tail="Ok(())"),
+        dict(name="verif_arm_return", file="vm.rs", fn="run", impl="VM", arm="OpCode::Return",
+             sig="(&mut self, constants: &Vec<Object>, gc: &mut GC, final_result: Object) -> Result<(), Error>", tail="Ok(())"),
+    ],
+}
+
 
 def K(id, props, module, harness, level="proof", bound="", tier="quick", functions=(), desc="", timeout=None, needs_fmt_stub=False):
     o = dict(id=id, props=list(props), backend="kani", module=module, harness=harness, level=level, bound=bound, tier=tier,
@@ -148,6 +162,10 @@ V("O02.helpers", ["C02", "C12", "C05"], "c02_helpers", expect_verified=7,
 V("O12.arms", ["C12", "C02", "C03", "C05"], "c12_calls", expect_verified=3,
   functions=["VM::run arm Call", "VM::run arm ReturnValue", "VM::run arm Return"],
   desc="Call: base = len-1-argc, args in place, remaining locals null, callee word gone, one frame pushed with the return address, everything below base unchanged, non-function -> TypeError, argc > slots or base > 65535 -> ArgumentError. Return(Value): stack == caller's stack ++ [result], frame popped, ip/bp restored, collector roots cover stack, constants, globals, last value and the returned value")
+K("O12.2k", ["C12", "C02"], "vm", "c12_call_twin", level="bounded", bound="1 argument, callee with 0..=3 slots, two caller slots", needs_fmt_stub=True,
+  functions=["VM::run arm Call (compiled verbatim as a method, registry.TWINS)"], desc="bounded twin of the Call contract on the real arm text whatever its syntactic form")
+K("O12.3k", ["C12", "C02"], "vm", "c12_return_twin", level="bounded", bound="caller stack of 2 slots, callee activation of 0..=2 slots", needs_fmt_stub=True,
+  functions=["VM::run arm ReturnValue", "VM::run arm Return"], desc="bounded twin of the Return contracts on the real arm text")
 V("O02.arms", ["C02", "C10", "C11", "C06", "C14", "C13", "C05", "C04"], "c02_arms", expect_verified=42,
   functions=["VM::run arms: Const SetGlobal GetGlobal SetLocal GetLocal Jump JumpIfFalse Pop Null True False Add..Or (13) Not Negate CallBuiltin *LocalConst (11) Array IndexGet IndexSet Halt"],
   desc="42 arms, each: operands read from inside the code, stack delta stated over the whole old stack, operand ORDER of every binary / fused operator (left = lower slot / local, right = top / constant), jump targets, type errors of Not/Negate/JumpIfFalse, GetGlobal of an unset slot is a ReferenceError, Halt untraces the result")
